@@ -15,7 +15,7 @@ EXTENDS Integers, Sequences, FiniteSets, TLC
 CONSTANTS Tokens,      \* line contents at the source, e.g. {"a", "b"}
           MaxSrc,      \* lines at the source
           MaxStages,
-          Kinds,       \* subset of {"mapx", "fn", "dup", "tac", "errtee", "cast", "ifa", "sw", "var"}
+          Kinds,       \* subset of {"mapx", "fn", "dup", "tac", "errtee", "cast", "ifa", "sw", "var", "tryf", "trys", "tpf"}
           Cap          \* channel capacity in lines (stands for the 1 MiB buffer)
 
 \* a line is a sequence of one-character strings; the renderer concatenates them
@@ -44,6 +44,13 @@ StageOut(k, in) ==
       [] k = "sw"     -> MapSeq(in, LAMBDA l : IF l = <<"b">> THEN <<"B">> ELSE l)
       \* a variable assigned from the element and read back in an expression-built string
       [] k = "var"    -> MapSeq(in, LAMBDA l : <<"v">> \o l \o <<"v">>)
+      \* a try / trypipe block inside the stage's loop body (C05 gives its meaning; here it sits in a stage whose stdout is a pipe
+      \* with a concurrent reader): foreach v { try { fail; out never }; out "t$v" } - the block is abandoned, the body carries on
+      [] k = "tryf"   -> MapSeq(in, LAMBDA l : <<"t">> \o l)
+      \* foreach v { try { out "s$v" || out never } } - the alternative is skipped
+      [] k = "trys"   -> MapSeq(in, LAMBDA l : <<"s">> \o l)
+      \* foreach v { trypipe { fail | out never; out never2 }; out "p$v" }
+      [] k = "tpf"    -> MapSeq(in, LAMBDA l : <<"p">> \o l)
 StageErr(k, in) == IF k = "errtee" THEN MapSeq(in, LAMBDA l : <<"e">> \o l) ELSE <<>>
 
 RECURSIVE RunStages(_, _, _)
